@@ -13,7 +13,7 @@ Inductive case := CConc (progs : list (list item)) (st0 : list (option Z)) (tmo 
 
 Definition oz_eqb := option_eqb Z.eqb.
 Definition bk_eqb (a b : bk) : bool :=
-  match a, b with BGet, BGet | BPut, BPut | BIncr, BIncr | BDel, BDel | BSetLock, BSetLock | BUnlock, BUnlock | BDelMany, BDelMany | BSetMany, BSetMany => true | _, _ => false end.
+  match a, b with BGet, BGet | BPut, BPut | BIncr, BIncr | BDel, BDel | BSetLock, BSetLock | BUnlock, BUnlock | BDelMany, BDelMany | BSetMany, BSetMany | BExists, BExists => true | _, _ => false end.
 Definition outcome_eqb (a b : outcome) : bool :=
   match a, b with
   | Ok x, Ok y => list_eqb oz_eqb x y
@@ -89,6 +89,15 @@ Fixpoint seq_eff (cmds : list cmd) (reads : list (option Z)) (ov : list (nat * Z
       end
   | Del k :: r => let '(ov', dl') := lapply (ov, dl) (LDel k) in seq_eff r reads ov' dl' (res ++ [Some 1])
   | Sleep _ :: r => seq_eff r reads ov dl (res ++ [None])
+  | PutIf k v want :: r =>
+      let known := match lookup ov k with Some _ => Some true | None => if memk k dl then Some false else None end in
+      match known, reads with
+      | Some ex, _ => let hit := Bool.eqb ex want in
+                      let '(ov', dl') := lapply (ov, dl) (LPutIf k v want hit) in seq_eff r reads ov' dl' (res ++ [b2z hit])
+      | None, rd :: rs => let hit := Bool.eqb (match rd with Some 1 => true | _ => false end) want in
+                          let '(ov', dl') := lapply (ov, dl) (LPutIf k v want hit) in seq_eff r rs ov' dl' (res ++ [b2z hit])
+      | None, [] => seq_eff r [] ov dl res
+      end
   end.
 
 Record tst := { t_item : nat;                    (* index of the current / next item *)
@@ -161,12 +170,17 @@ Fixpoint ok_log (progs : list (list item)) (univ : list nat) (tmo : Z) (ts : nat
              | Put k' v, BPut => Nat.eqb k k' && oz_eqb (aft k) (Some v) && same_except [k]
              | Incr k' d, BIncr => Nat.eqb k k' && oz_eqb (aft k) (Some (match bef k with Some x => x + d | None => d end)) && oz_eqb r (aft k) && same_except [k]
              | Del k', BDel => Nat.eqb k k' && oz_eqb (aft k) None && same_except [k]
+             | PutIf k' v want, BPut =>
+                 let hit := Bool.eqb (isSomeZ (bef k)) want in
+                 Nat.eqb k k' && oz_eqb r (b2z hit) && oz_eqb (aft k) (if hit then Some v else bef k) && same_except [k]
              | _, _ => false
              end, s, overstay)
         | Some (Txn blk) =>
             match b with
             | BGet => (oz_eqb r (bef k) && same_except [],
                        {| t_item := t_item s; t_in := true; t_reads := t_reads s ++ [r]; t_wrote_del := t_wrote_del s; t_wrote_set := t_wrote_set s; t_lock0 := t_lock0 s |}, overstay)
+            | BExists => (oz_eqb r (b2z (isSomeZ (bef k))) && same_except [],
+                          {| t_item := t_item s; t_in := true; t_reads := t_reads s ++ [r]; t_wrote_del := t_wrote_del s; t_wrote_set := t_wrote_set s; t_lock0 := t_lock0 s |}, overstay)
             | BDelMany =>
                 let '(ov, dl, _) := seq_eff (bcmds blk) (t_reads s) [] [] [] in
                 (negb (braise blk) && negb (t_wrote_del s) && negb (t_wrote_set s) &&
